@@ -9,7 +9,7 @@ Precondition enforced by the harness: semantic_analysis() passes on the script a
 Oracle: outcome in {results, VTLEngineException subclass whose code is in the message catalogue}.
 Anything else escaping run() is a violation, bucketed by (exception type, normalised message head).
 """
-import os, re, warnings
+import json, os, re, warnings
 from verif import core, eng
 
 LEVEL = "exploration"
@@ -367,6 +367,10 @@ def shrink_case(case, key):
 
 def work_generated(seed, n):
     warnings.filterwarnings("ignore")
+    if os.environ.get("VERIF_DEBUG_STUCK"):
+        import faulthandler
+        faulthandler.dump_traceback_later(90, repeat=True, file=open("/var/tmp/c32-stuck-%d.log" % os.getpid(), "w"))
+        global _LAST
     import hypothesis
     from hypothesis import given, settings, HealthCheck, strategies as st
     part = core.Part()
@@ -375,6 +379,8 @@ def work_generated(seed, n):
     @hypothesis.seed(seed)
     @given(st.composite(build_case)())
     def prop(case):
+        if os.environ.get("VERIF_DEBUG_STUCK"):
+            open("/var/tmp/c32-last-%d.txt" % os.getpid(), "w").write(case["script"] + "\n" + json.dumps(case["rows"])[:3000])
         status, key, text = run_one(case)
         if status.startswith("skip:"):
             part.hist["skipped:" + status.split(":")[1]] += 1
